@@ -172,7 +172,7 @@ pub fn gen_hp(seed: u64, profile: &str, tier: Tier) -> HP {
             weights[3] = weights[3].max(10);
             weights[8] = weights[8].max(5);
         }
-        "C20" => {
+        "C20" | "C17" => {
             weights[1] = weights[1].max(6) * 3;
             weights[2] = weights[2].max(3) * 2;
         }
@@ -631,6 +631,7 @@ pub fn run_hist(hp: &HP, seed: u64, steps: Option<&[Step]>) -> HistRun {
 pub fn nontrivial_for(focus: &str, out: &RunOut) -> bool {
     let g = |k: &str| out.stats.sums.get(k).copied().unwrap_or(0);
     match focus {
+        "C01" => g("calls") > 5,
         "C06" => g("calls") > 0,
         "C07" => g("datagrams_checked") > 0,
         "C08" => g("calls") > 5 && g("sends") > 0,
@@ -643,7 +644,7 @@ pub fn nontrivial_for(focus: &str, out: &RunOut) -> bool {
         "C15" => g("c15_nonempty_sections") > 0,
         "C16" => g("c16_items_sent") + g("c16_items_received") > 0,
         "C19" => g("datagrams_checked") > 0,
-        "C17" => g("calls") > 0,
+        "C17" => g("c17_rejections_monitored") > 0,
         "C20" => g("calls") > 5,
         _ => true,
     }
